@@ -25,10 +25,17 @@ def usagePoolClients : List (String × String × String × String × List String
   ("modules/caddyhttp/reverseproxy/hosts.go", "Upstream.fillHost", "hosts", "LoadOrStore", []),
   ("modules/caddyhttp/reverseproxy/reverseproxy.go", "Handler.Cleanup", "hosts", "Delete", ["upstream.Host==nil => continue"]),
   ("modules/caddyhttp/reverseproxy/reverseproxy.go", "Handler.proxyLoopIteration", "hosts", "Delete", ["if h.DynamicUpstreams!=nil", "else err!=nil", "defer", "func"]),
+  ("modules/caddyhttp/reverseproxy/reverseproxy.go", "Handler.proxyLoopIteration", "hosts", "Delete", ["if resolved!=nil", "defer", "func", "if upstream!=configured[i]"]),
   ("modules/caddypki/acmeserver/acmeserver.go", "Handler.Cleanup", "databasePool", "Delete", ["!ash.databaseOpened => return"]),
   ("modules/caddypki/acmeserver/acmeserver.go", "Handler.openDatabase", "databasePool", "LoadOrNew", []),
   ("modules/caddytls/connpolicy.go", "ConnectionPolicy.buildStandardTLSConfig", "secretsLogPool", "LoadOrNew", ["err!=nil => return", "(p.ProtocolMin!=\"\"&&p.ProtocolMax!=\"\")&&p.ProtocolMin>p.ProtocolMax => return", "if p.InsecureSecretsLog!=\"\"", "err!=nil => return", "err!=nil => return"]),
   ("modules/caddytls/connpolicy.go", "ConnectionPolicy.buildStandardTLSConfig", "secretsLogPool", "Delete", ["err!=nil => return", "(p.ProtocolMin!=\"\"&&p.ProtocolMax!=\"\")&&p.ProtocolMin>p.ProtocolMax => return", "if p.InsecureSecretsLog!=\"\"", "err!=nil => return", "err!=nil => return", "err!=nil => return", "func"])
 ]
+
+/-- reverseproxy.go Handler.proxyLoopIteration, the per-request client of the hosts pool: (the slice the
+    provisioning loop ranges over, the statements of that loop's body, the slice the deferred release loop ranges
+    over, the argument of hosts.Delete there, every assignment to that slice or to one of its elements) -/
+def dynamicUpstreamPairing : String × List String × String × String × List String :=
+  ("dUpstreams", ["h.provisionUpstream(dUp)"], "dUpstreams", "upstream.String()", ["dUpstreams,err:=h.DynamicUpstreams.GetUpstreams(r)"])
 
 end CaddyModel.Gen
